@@ -23,6 +23,7 @@ def parseKV (cfg : Cfg × Bool) (tok : String) : Option (Cfg × Bool) :=
   | ["think", v] => v.toNat?.map fun x => ({ cfg.1 with think := x }, cfg.2)
   | ["buf", v] => v.toNat?.map fun x => ({ cfg.1 with bufsize := x }, cfg.2)
   | ["https", v] => some ({ cfg.1 with https := parseBool v }, cfg.2)
+  | ["thr", v] => v.toNat?.map fun x => ({ cfg.1 with thr := x }, cfg.2)
   | ["early", v] => some ({ cfg.1 with early := parseBool v }, cfg.2)
   | ["x100", v] => some ({ cfg.1 with expect100 := parseBool v }, cfg.2)
   | ["c0", v] => v.toNat?.map fun x => ({ cfg.1 with c0 := x }, cfg.2)
@@ -47,6 +48,8 @@ def parseEv (s : String) : Option Ev :=
     else if s.startsWith "B" then
       match ((s.drop 1).toString.splitOn ".").mapM (·.toNat?) with
       | some [n, hd, bb, eof] => some (.bytes { n := n, headDone := hd == 1, bodyBytes := bb, eof := eof == 1 })
+      | some [n, hd, bb, eof, im, rd] =>
+        some (.bytes { n := n, headDone := hd == 1, bodyBytes := bb, eof := eof == 1, interim := im == 1, redirect := rd == 1 })
       | some [n, hd, bb, eof, im] =>
         some (.bytes { n := n, headDone := hd == 1, bodyBytes := bb, eof := eof == 1, interim := im == 1 })
       | _ => none
@@ -78,7 +81,7 @@ def render (cfg : Cfg) (s : St) : String :=
   let live := if live.isEmpty then "-" else ",".intercalate live
   let follow := if !s.pc.isDone then "n/a" else if cfg.limit1 && s.slot != .none then "E_TIMEOUT" else "ok"
   s!"r={r} hdr={hdr} c={showC s.cpc} acq={if s.slot = .none then 0 else 1} wait={s.poolQ.length} " ++
-  s!"pooled={if s.pooled && s.tr = .open then 1 else 0} open={if s.tr = .open then 1 else 0} live={live} " ++
+  s!"pooled={(if s.pooled && s.tr = .open then 1 else 0) + s.oldPooled} open={(if s.tr = .open then 1 else 0) + s.oldPooled} live={live} " ++
   s!"dnsw={(if s.dnsWaitR then 1 else 0) + (if s.dnsWaitC then 1 else 0)} " ++
   s!"lookups={match s.lookup with | .none => 0 | _ => 1} dnscalls={s.dnsCalls} follow={follow} " ++
   s!"cnl={if s.pc.isDone then toString s.cancelling else "-"}"
@@ -121,8 +124,8 @@ def handle : List String → String
   | ["ceil", kind, now, d] =>
     match now.toNat?, d.toNat? with
     | some now, some d =>
-      if kind == "total" then toString (totalDeadline now d)
-      else if kind == "ctx" then toString (ctxDeadline now d) else "bad-op"
+      if kind == "total" then toString (totalDeadline thr now d)
+      else if kind == "ctx" then toString (ctxDeadline thr now d) else "bad-op"
     | _, _ => "bad-op"
   | _ => "bad-op"
 
